@@ -349,10 +349,19 @@ type c07Sink struct {
 	l      *lcg
 	parked int32
 	counts sync.Map
+	sigMu  sync.Mutex
+	sig    []byte // order of publication / snapshot hook events = interleaving signature of the history
 }
 
 func (s *c07Sink) Hook(point string, tag int64) {
 	s.shadow.Hook(point, tag)
+	if c, ok := map[string]byte{"pool.publish.before": 'B', "pool.publish.instance": 'P', "pool.publish.after": 'A', "pool.prepare.snapshot": 's'}[point]; ok {
+		s.sigMu.Lock()
+		if len(s.sig) < 4096 {
+			s.sig = append(s.sig, c)
+		}
+		s.sigMu.Unlock()
+	}
 	switch point {
 	case "pool.publish.instance":
 		if tag == 0 && atomic.LoadInt32(&s.parked) == 1 {
@@ -604,7 +613,25 @@ func runHistory(k *fw.Case) {
 		k.Count("hook_"+pt, n)
 	}
 	k.Max("max_inflight_by_hooks", int64(mf))
-	k.Distinct("history", sz, nUpdaters, len(ups), overlaps/4, len(seen), multi, sink.parked)
+	sink.sigMu.Lock()
+	sig := string(sink.sig)
+	sink.sigMu.Unlock()
+	k.Distinct("history", sz, nUpdaters, len(ups), overlaps/4, len(seen), multi, sink.parked, sig)
+	// snapshots taken while a publication was in progress (between its B and A events)
+	inPub, during := false, 0
+	for _, c := range sig {
+		switch c {
+		case 'B':
+			inPub = true
+		case 'A':
+			inPub = false
+		case 's':
+			if inPub {
+				during++
+			}
+		}
+	}
+	k.Count("snapshots_attempted_during_a_publication", int64(during))
 	k.Sample(map[string]interface{}{"pool": sz, "updaters": nUpdaters, "successful_updates": len(ups), "executions": total, "overlapping": overlaps, "gomaxprocs": procs})
 	// let asynchronous hand-backs finish before the next case
 	waitUntil(progressBound, func() bool {
